@@ -102,6 +102,17 @@ INFO = {
     'C13-dask-rate-limit-inherits-delay': ('rate_limit on a DaskStream', 'the syntactic check of the Dask mixin classes is tagged with the properties of the core nodes'),
     'C14-latest-notifies-directly': ('update() called from a thread other than the loop\'s while the forwarder is idle', '-'),
     'C14-latest-no-recheck-after-wait': ('an arrival while the forwarder is suspended in the delivery', '-'),
+    'C15-combine-latest-initial-emit-on-normalised': ('built without emit_on, a new input connected later, the new input delivers again', 'constructor contracts (c_init.py)'),
+    'C15-destroy-empty-selection-destroys-all': ('node.destroy(streams=[])', 'contract variant for an explicit empty selection'),
+    'C16-sliding-window-return-inside-full-branch': ('sliding_window(n>=2), one of the first n-1 elements, an async consumer that fails', '-'),
+    'C16-flatten-returns-last-awaitables-only': ('a batch of >= 2 items, an async sink failing on a non-last item', '-'),
+    'C17-textfile-rpartition-split': ('a self-overlapping multi-character delimiter and a read ending inside it', 'bounded enumeration of from_textfile._run (symbolic: checker error on str.rpartition)'),
+    'C18-source-init-schedules-start': ('a source created with start=True and stop() before the loop runs the queued start', 'Source.__init__ under contract'),
+    'C18-textfile-seek-moved-to-start': ('from_textfile(from_end=True) already started, start() called again with unread data', 'file position tracked (seek) in the from_textfile lifecycle contract'),
+    'C19-set-loop-takes-first-upstream-even-without-loop': ('a multi-upstream node whose first upstream has no loop and a later one has', '-'),
+    'C19-init-tests-constructor-argument-not-inherited-loop': ('a node added without loop= to a pipeline whose loop is not the current one', '-'),
+    'C20-dask-accumulate-first-element-ignores-with-state': ('Dask accumulate with with_state=True and no start value', '-'),
+    'C20-dask-accumulate-init-swaps-start-and-returns-state': ('stream.accumulate(func, start) with start passed positionally on a DaskStream', 'positional constructor contracts (signature order)'),
 }
 
 
